@@ -148,7 +148,7 @@ CLAIMED = {
           "own_verdict_all_schedules and never_blocked_step on the chunked-delivery interleaving model for every schedule; pinned-tree "
           "counterexamples kept as regression witnesses; the start of a delivery against Conn.Close (model LateStart, every schedule): C20_late_start_no_panic, "
           "C20_late_start_never_calls (repaired code), C20_late_start_pinned_panics (the tree before c1a4e24), C20_late_start_window_remains (what no small patch closes). accept probe over outcome sequences, sched probe over forced delivery/Close/Shutdown orders "
-          "with goroutine-leak counting, connections stuck in an implicit-TLS handshake, and the whole harness replayed under Go's race detector (both tiers), including endings (Server.Close, Shutdown, the application's Conn.Close) fired without waiting for the command loop, so that nothing orders them against the running handler (three races found this way and repaired: f1c15af, 67ade1e), and probe multi: several connections of one server served at the same time, each answered like a connection of its own.",
+          "with goroutine-leak counting, connections stuck in an implicit-TLS handshake, and the whole harness replayed under Go's race detector (both tiers), including endings (Server.Close, Shutdown, the application's Conn.Close) fired without waiting for the command loop, so that nothing orders them against the running handler (three races found this way and repaired: f1c15af, 67ade1e), and probe multi: several connections of one server served at the same time, each answered like a connection of its own; probe lateserve: Serve after or at the same moment as Close/Shutdown returns and closes its listener (repaired in 61e1158).",
           "DESIGN.md 7 C20", "Lean 4 proof of interleaving/lifecycle models + schedule-forcing differential probes (accept, sched)",
           "the Go memory model, scheduler fairness and kernel-blocked goroutines are not expressible in the model"),
 }
